@@ -81,6 +81,16 @@ CHECKS = {
    text="For every merged schema with <=1 atom and every introspection operation in the bound the HTTP answer equals gqlref.Introspect over the merger's own output (lists as sets, null/empty description identified), __type(name:X) equals the __schema.types entry X, and FromIntrospection and the gateway's own remote introspector rebuild a schemacanon-equal schema from the standard query.",
    note="Trusted: gqlref.IntrospectResolver (2018-shaped prelude of gqlparser 2.5.1), schemacanon.",
    ref="DESIGN.md §6 C16"),
+ "C08": dict(engine="sched", cat="model_checking",
+   technique="stateless model checking of the implementation: preemption-bounded exhaustive DFS (state-cached) over the schedules of the rewritten Gateway.Handler processing a client batch, at two granularities (operation subtrees as threads; every goroutine)",
+   text="Every batch of length 0..3 over a 10-operation pool (queries on both services, cross-service, a mutation, introspection, an invalid operation, service errors, a transport fault): every schedule within the bound (operation-grained: PB<=1 for length<=2, PB 0 for length 3 quick; fine-grained PB<=1 on selected batches) must yield an array of N results with result i equal to the answer operation i receives alone, and no deadlock/fatal/leak.",
+   note="Trusted: vrewrite/vrt; the operation-grained mode fixes the default order inside one operation's goroutine subtree; schedules beyond the bound are not covered.",
+   ref="DESIGN.md §6 C08"),
+ "C13": dict(engine="sched", cat="model_checking",
+   technique="stateless model checking of the implementation with map iteration order as an enumerated choice: deviation-bounded exhaustive DFS (state-cached) where a deviation is a preemption or a non-default order at one of the rewritten range-over-map sites",
+   text="For each of ~320 (quick) operations every execution of the real handler with at most one deviation (thorough two) is run; the set of outcomes (data, set of errors, per-service multiset of sub-requests) must be a singleton.",
+   note="Map iteration inside dependencies is not enumerated; bounded number of simultaneous deviations.",
+   ref="DESIGN.md §6 C13"),
 }
 
 NOT_YET = {}
